@@ -682,4 +682,23 @@ theorem migration_case_only (g : Globals) (tables : List (List Stmt))
   intro s hs
   exact render_case_only g s (h ss hss s hs)
 
+/-- the index types the MySQL grammar knows pass the template check, for every dialect -/
+theorem usingOK_known (d : Dialect) (t n : String) (cols : List String) (uniq : Bool) (usingT : String)
+    (h : usingT ∈ ["", "BTREE", "HASH", "RTREE", "btree", "hash", "rtree"]) :
+    (Stmt.createIndex t n cols uniq usingT).usingOK d = true := by
+  show okTpl (rawTpl d (if uniq then "CreateUniqueIndexStm" else "CreateIndexStm") usingT).toList = true
+  simp only [List.mem_cons, List.mem_nil_iff, or_false] at h
+  rcases h with rfl | rfl | rfl | rfl | rfl | rfl | rfl <;> cases d <;> cases uniq <;> decide +kernel
+
+/-- **C10, keyword case, migrations whose index types are the grammar's**: no hypothesis about templates is left -/
+theorem migration_case_only_known (g : Globals) (tables : List (List Stmt))
+    (h : ∀ ss ∈ tables, ∀ s ∈ ss, ∀ t n cols uniq usingT, s = Stmt.createIndex t n cols uniq usingT →
+      usingT ∈ ["", "BTREE", "HASH", "RTREE", "btree", "hash", "rtree"]) :
+    MEq (renderMigration (gL g) tables) (renderMigration (gU g) tables) := by
+  apply migration_case_only g tables
+  intro ss hss s hs
+  cases s with
+  | createIndex t n cols uniq usingT => exact usingOK_known g.dialect t n cols uniq usingT (h ss hss _ hs t n cols uniq usingT rfl)
+  | _ => rfl
+
 end Sqlize
